@@ -210,8 +210,10 @@ def view_op(fam, v, f):
             setattr(v, f[1], val)
             _, _, empty, ty = next(r for r in cc_attrs() if r[0] == f[1])
             want = "skip"
-            if ty is bool and isinstance(val, bool):
-                want = val
+            if ty is bool:
+                want = bool(val)  # "A bool, either present or not": any truthy value sets, any falsy one removes
+            elif ty is None and isinstance(val, int) and not isinstance(val, bool):
+                want = str(val)
             elif ty is int and isinstance(val, int) and not isinstance(val, bool):
                 want = val
             elif ty is int and isinstance(val, str):
@@ -338,7 +340,7 @@ class ViewsStream(Stream):
     _verdicts: dict = {}
 
     # ----- alphabets
-    SETV = [["v", "add", "a"], ["v", "add", "A"], ["v", "add", "b c"], ["v", "remove", "A"], ["v", "remove", "b c"], ["v", "discard", "a"], ["v", "discard", "zz"], ["v", "update", ["b c", "d"]], ["v", "update", []], ["v", "clear"], ["v", "delitem", 0], ["v", "delitem", -1], ["v", "setitem", 0, "n"], ["v", "setitem", 0, "a"], ["v", "setitem", -1, "A"]]
+    SETV = [["v", "add", "a"], ["v", "add", "A"], ["v", "add", "b c"], ["v", "remove", "A"], ["v", "remove", "b c"], ["v", "discard", "a"], ["v", "discard", "zz"], ["v", "update", ["b c", "d"]], ["v", "update", []], ["v", "update", ["e", "E", "a", "e"]], ["v", "discard", "E"], ["v", "clear"], ["v", "delitem", 0], ["v", "delitem", -1], ["v", "setitem", 0, "n"], ["v", "setitem", 0, "a"], ["v", "setitem", -1, "A"]]
     SETX = [
         ["f"],
         ["as", "none"],
@@ -513,6 +515,18 @@ class ViewsStream(Stream):
                     small = [self.subst(o, prop) for o in vops[:7] + xops[:2]]
                     for ops in itertools.product(small, repeat=4):
                         yield {"fam": fam, "prop": prop, "init": inits[1], "ops": [list(o) for o in ops]}
+        # cache_control: EVERY typed directive x EVERY kind of value (None, True, False, zero / positive
+        # / negative ints, empty / numeric / other strings), alone, after the directive was set, followed
+        # by a deletion and by a re-read
+        cc_vals = ["~", "t", "f", "i0", "i1", "i5", "i-2", "s", "sx", "s10", "sa b"]
+        for attr, _key, _empty, _ty in cc_attrs():
+            for v in cc_vals:
+                op = ["v", "attr", attr, v]
+                for init in ([], [["Cache-Control", "no-cache, max-age=3600, no-store, public, private=\"x, y\", immutable"]]):
+                    yield {"fam": "cc", "prop": "Cache-Control", "init": init, "ops": [op]}
+                    yield {"fam": "cc", "prop": "Cache-Control", "init": init, "ops": [["v", "attr", attr, "t"], op]}
+                    yield {"fam": "cc", "prop": "Cache-Control", "init": init, "ops": [["v", "attr", attr, "i7"], op, ["f"]]}
+                    yield {"fam": "cc", "prop": "Cache-Control", "init": init, "ops": [op, ["v", "delattr", attr], op]}
         fams = list(self.FAMS)
         for _ in range(600 if tier == "quick" else 12000):
             fam = rng.choice(fams)
@@ -579,12 +593,13 @@ class ViewsStream(Stream):
         synced = in_sync()
         if not synced:
             problems.append((0, "", "a freshly fetched view differs from re-reading the property"))
-        dup_origin = "F08c" if (fam == "set" and len(list(held)) != len(held)) else ""
+        dup_origin = "F08c" if (fam == "set" and set_diverged(held)) else ""
         for i, op in enumerate(case["ops"], 1):
             kind = op[0]
             before = content(fam, held)
             check = None
             pre_ct = r.headers.get("content-type")
+            collides = fam == "set" and kind == "v" and op[1] == "setitem" and set_collides(held, op[2], op[3])
             try:
                 if kind == "f":
                     held = getattr(r, attr)
@@ -605,34 +620,16 @@ class ViewsStream(Stream):
             except Exception as e:  # noqa: BLE001
                 ret = "!" + type(e).__name__
                 check = None
+            vals_after = r.headers.getlist(hname)
             outs.append(ret + "#" + dump())
             # ---- the property, stated on the real objects
-            empty_note = ""
-            if fam == "set" and not dup_origin:
-                if kind == "f" and len(list(held)) != len(held):
-                    dup_origin = "F08c"  # a view fetched from a header with case-duplicates
-                elif kind == "v" and op[1] == "setitem" and not ret.startswith("!"):
-                    members = list(held)
-                    idx = op[2] if op[2] >= 0 else len(members) + op[2]
-                    if any(i != idx and m.lower() == op[3].lower() for i, m in enumerate(members)):
-                        dup_origin = "F08b"  # item assignment of a member present elsewhere
-            if fam == "set" and dup_origin:
-                empty_note = dup_origin
-            elif fam == "auth" and view_empty(fam, held):
-                empty_note = "F16b"
-            elif fam == "auth" and held.token is not None and held.parameters:
-                empty_note = "F16c"
-            elif fam == "mp" and not pre_ct:
-                empty_note = "F16f"
-            elif fam == "cr" and held.units is not None:
-                from werkzeug.http import is_byte_range_valid
-
-                try:
-                    okr = is_byte_range_valid(held.start, held.stop, held.length)
-                except TypeError:
-                    okr = False
-                if not okr:
-                    empty_note = "F16d"
+            if fam == "set":
+                if kind == "f":
+                    # a view built from a header text with case-duplicate members (F08c)
+                    dup_origin = "F08c" if set_diverged(held) else ""
+                elif kind == "v" and op[1] == "setitem" and not ret.startswith("!") and collides:
+                    dup_origin = dup_origin or "F08b"  # item assignment of a member present elsewhere
+            empty_note = classify(fam, r, held, hname, pre_ct, dup_origin, vals_after)
             if kind == "f":
                 synced = in_sync()
                 if not synced:
@@ -665,7 +662,7 @@ class ViewsStream(Stream):
                     except Exception as e:  # noqa: BLE001
                         got = "!" + type(e).__name__
                     if got != want or (isinstance(want, bool) != isinstance(got, bool)):
-                        problems.append((i, empty_note, f"read back {got!r} after assigning {want!r}"))
+                        problems.append((i, "", f"read back {got!r} after assigning {want!r}"))
                 synced = now
         self._verdicts[json.dumps(case, sort_keys=True)] = problems
         return ";".join(outs)
@@ -736,6 +733,332 @@ class ViewsStream(Stream):
         return True
 
 
+def set_diverged(v):
+    """a HeaderSet whose item list and lookup set describe different members"""
+    items = list(v)
+    return len(items) != len(v) or {x.lower() for x in items} != set(v.as_set())
+
+
+def set_collides(v, idx, value):
+    """`v[idx] = value` where `value` equals (ignoring case) a member at another position"""
+    members = list(v)
+    if not -len(members) <= idx < len(members):
+        return False
+    idx = idx if idx >= 0 else len(members) + idx
+    return any(i != idx and m.lower() == value.lower() for i, m in enumerate(members))
+
+
+def classify(fam, r, held, hname, pre_ct, cause="", vals=None):
+    """The known-finding key whose *specific shape* the state after a step has, or "".
+    A key is answered only when both the cause the finding names is present in the held view AND the
+    outcome is exactly the wrong outcome the finding describes (the view did write its own
+    serialisation into the header - it is that serialisation which is lossy); any other wrong outcome
+    on the same input stays an unclassified violation.
+      F16b  WWW-Authenticate view with neither token nor parameters: header '<Scheme> ', re-read token ''
+      F16c  view with token and parameters: header '<Scheme> <token>', re-read has no parameters
+      F16d  ContentRange holding a combination is_byte_range_valid rejects: header = its (lossy) to_header()
+      F16f  mimetype_params written when there was no Content-Type: header = dump_options_header(None, params)
+      F08b / F08c  HeaderSet view whose list and set diverge after a colliding item assignment /
+            after being built from a header with case-duplicates"""
+    if vals is None:  # the header right after the step, before anything re-read the property
+        vals = r.headers.getlist(hname)
+    if fam == "auth":
+        try:
+            text = held.to_header()
+        except Exception:  # noqa: BLE001
+            return ""
+        if vals != [text]:
+            return ""
+        re_ = r.www_authenticate
+        if held.token is None and not held.parameters:
+            if text == held.type.title() + " " and re_.type == held.type and re_.token == "" and not re_.parameters:
+                return "F16b"
+        elif held.token is not None and held.parameters:
+            if text == f"{held.type.title()} {held.token}" and re_.type == held.type and re_.token == held.token and not re_.parameters:
+                return "F16c"
+        return ""
+    if fam == "cr":
+        if held.units is None:
+            return ""
+        from werkzeug.http import is_byte_range_valid
+
+        try:
+            okr = is_byte_range_valid(held.start, held.stop, held.length)
+        except TypeError:
+            okr = False
+        if okr:
+            return ""
+        try:
+            text = held.to_header()
+        except Exception:  # noqa: BLE001
+            return ""
+        return "F16d" if vals == [text] else ""
+    if fam == "mp":
+        if pre_ct:
+            return ""
+        from werkzeug.http import dump_options_header
+
+        return "F16f" if vals == [dump_options_header(None, dict(held))] else ""
+    if fam == "set":
+        return cause if (cause and set_diverged(held)) else ""
+    return ""
+
+
+class SharedViewsStream(Stream):
+    """Histories over TWO responses and TWO held view objects of one property: objects read from one
+    response and assigned to the other's property, one object assigned to both in turn, two live
+    objects of one response (the second goes stale when the first writes), `response.headers`
+    replaced, header edits and deletions in between. Compared with Model.Views through the driver's
+    `view2` command; the oracle is the property's coherence statement per object: an object is a view
+    of the response whose property getter returned it - and, for `www_authenticate` (documented:
+    assigning a single value allows updating it directly), of the response it was last assigned to."""
+
+    name = "views-shared"
+    _verdicts: dict = {}
+    VOPS = {
+        "set": [["add", "a"], ["remove", "A"], ["update", ["b c", "B C", "d"]], ["clear"]],
+        "cc": [["attr", "max_age", "i5"], ["attr", "no_store", "t"], ["delattr", "max_age"], ["clear"]],
+        "csp": [["attr", "default_src", "'self'"], ["setitem", "img-src", "*"], ["delattr", "default_src"], ["clear"]],
+        "cr": [["set", 0, 10, 100, "bytes"], ["length", 50], ["unset"], ["set", None, None, 0, "bytes"]],
+        "auth": [["setitem", "realm", "two"], ["type", "Bearer"], ["token", "abc=="], ["params", [["realm", "r3"]]], ["delitem", "realm"], ["token", None]],
+        "mp": [["setitem", "charset", "utf-8"], ["delitem", "charset"], ["update", [["a", "1"]]], ["clear"]],
+    }
+    EDITS = {
+        "set": [["h", "set", "{H}", "m, n"], ["h", "remove", "{H}"], ["hr", [["{H}", "q"]]], ["hr", []], ["as", "none"], ["as", "str", "x, y"]],
+        "cc": [["h", "set", "Cache-Control", "no-cache, max-age=3"], ["h", "remove", "Cache-Control"], ["hr", []]],
+        "csp": [["h", "set", "{H}", "script-src a"], ["h", "remove", "{H}"], ["hr", []], ["as", "none"]],
+        "cr": [["h", "set", "Content-Range", "bytes */20"], ["h", "remove", "Content-Range"], ["hr", []], ["as", "none"]],
+        "auth": [["h", "set", "WWW-Authenticate", "Bearer t0k"], ["h", "remove", "WWW-Authenticate"], ["hr", []], ["as", "none"], ["del"]],
+        "mp": [["h", "set", "Content-Type", "application/json"], ["h", "remove", "Content-Type"], ["hr", [["Content-Type", "a/b; x=y"]]]],
+    }
+    INITS = {
+        "set": [([], []), ([["{H}", "Cookie, Accept"]], [["X", "1"]])],
+        "cc": [([], []), ([["Cache-Control", "max-age=3600, private"]], [["cache-control", "no-store"]])],
+        "csp": [([], []), ([["{H}", "default-src 'self'; img-src *"]], [])],
+        "cr": [([], []), ([["Content-Range", "bytes 0-9/100"]], [["content-range", "items */5"]])],
+        "auth": [([], []), ([["WWW-Authenticate", "Basic realm=one"]], []), ([["WWW-Authenticate", "Bearer t1"]], [["WWW-Authenticate", "Basic realm=b, charset=x"]])],
+        "mp": [([["Content-Type", "text/html; charset=utf-8"]], [["Content-Type", "a/b"]]), ([["Content-Type", "text/plain"]], [])],
+    }
+    corpus = [
+        # the seeded C16-c2 family: an object already live for one response is assigned to the other
+        {"fam": "auth", "prop": "WWW-Authenticate", "init": [[["WWW-Authenticate", "Basic realm=one"]], []], "ops": [["av", 0, 1], ["v", 0, "setitem", "realm", "two"]]},
+        {"fam": "auth", "prop": "WWW-Authenticate", "init": [[], []], "ops": [["v", 0, "setitem", "realm", "one"], ["av", 0, 0], ["av", 0, 1], ["v", 0, "token", "abc=="]]},
+    ]
+
+    @staticmethod
+    def props(fam):
+        return ViewsStream.FAMS[fam][0]
+
+    def alphabet(self, fam, prop, core=False):
+        sub = lambda o: [[[prop if y == "{H}" else y for y in p] if isinstance(p, list) else p for p in x] if isinstance(x, list) else (prop if x == "{H}" else x) for x in o]  # noqa: E731
+        vops = self.VOPS[fam][: (2 if core else None)]
+        edits = self.EDITS[fam][: (2 if core else None)]
+        out = []
+        for j in (0, 1):
+            out += [["v", j] + sub(o) for o in vops]
+            for i in (0, 1):
+                out.append(["f", j, i])
+                out.append(["av", j, i])
+        for i in (0, 1):
+            out += [[sub(o)[0], i] + sub(o)[1:] for o in edits]
+        return out
+
+    def cases(self, rng, tier):
+        for fam in self.VOPS:
+            for prop in self.props(fam):
+                sub = lambda l: [[prop if x == "{H}" else x for x in p] for p in l]  # noqa: E731
+                inits = [[sub(a), sub(b)] for a, b in self.INITS[fam]]
+                full = self.alphabet(fam, prop)
+                core = self.alphabet(fam, prop, core=True)
+                for init in inits:
+                    for n in (0, 1, 2):
+                        alpha = full if (n < 2 or init is inits[-1] or tier != "quick") else core
+                        for ops in itertools.product(alpha, repeat=n):
+                            yield {"fam": fam, "prop": prop, "init": init, "ops": [list(o) for o in ops]}
+                if tier != "quick" or prop == self.props(fam)[0]:
+                    for ops in itertools.product(core, repeat=3):
+                        yield {"fam": fam, "prop": prop, "init": inits[-1], "ops": [list(o) for o in ops]}
+        fams = list(self.VOPS)
+        for _ in range(500 if tier == "quick" else 10000):
+            fam = rng.choice(fams)
+            prop = rng.choice(self.props(fam))
+            sub = lambda l: [[prop if x == "{H}" else x for x in p] for p in l]  # noqa: E731
+            a, b = rng.choice(self.INITS[fam])
+            full = self.alphabet(fam, prop)
+            yield {"fam": fam, "prop": prop, "init": [sub(a), sub(b)], "ops": [list(rng.choice(full)) for _ in range(rng.randrange(4, 10))]}
+
+    def attr(self, case):
+        return FAM_ATTR.get(case["fam"]) or PROP_ATTR[case["prop"]]
+
+    def real(self, case):
+        import werkzeug.datastructures as ds
+        from werkzeug.sansio.response import Response
+
+        fam, attr = case["fam"], self.attr(case)
+        hname = FAM_HEADER.get(fam) or case["prop"]
+        rs = [Response(), Response()]
+        for r, init in zip(rs, case["init"]):
+            r.headers = ds.Headers([(k, v) for k, v in init])
+        held = [getattr(rs[0], attr), getattr(rs[1], attr)]
+        owner = [0, 1]
+        cause = ["F08c" if (fam == "set" and set_diverged(h)) else "" for h in held]
+        problems = []
+        vs = ViewsStream()
+
+        def dump():
+            hd = "H0=" + o_pairs(list(rs[0].headers)) + "|H1=" + o_pairs(list(rs[1].headers))
+            vv = "|".join(f"V{j}=" + show(fam, held[j]) for j in (0, 1))
+            return hd + "|" + vv + "|R0=" + show(fam, getattr(rs[0], attr)) + "|R1=" + show(fam, getattr(rs[1], attr))
+
+        def in_sync(j):
+            return content(fam, held[j]) == content(fam, getattr(rs[owner[j]], attr))
+
+        outs = ["#" + dump()]
+        synced = [in_sync(0), in_sync(1)]
+        for j in (0, 1):
+            if not synced[j]:
+                problems.append((0, "", "a freshly fetched view differs from re-reading the property"))
+        for i, op in enumerate(case["ops"], 1):
+            kind = op[0]
+            check = None
+            before = [content(fam, held[0]), content(fam, held[1])]
+            hbefore = [list(rs[0].headers), list(rs[1].headers)]
+            pre_ct = [rs[0].headers.get("content-type"), rs[1].headers.get("content-type")]
+            try:
+                if kind == "f":
+                    held[op[1]] = getattr(rs[op[2]], attr)
+                    owner[op[1]] = op[2]
+                    ret = "~"
+                elif kind == "v":
+                    res, check = view_op(fam, held[op[1]], op[2:])
+                    ret = o_ret(res)
+                elif kind == "av":
+                    setattr(rs[op[2]], attr, held[op[1]])
+                    if fam == "auth":
+                        owner[op[1]] = op[2]
+                    ret = "~"
+                elif kind == "h":
+                    ret = hdr_ret(hdr_apply(rs[op[1]].headers, op[2:], ds))
+                elif kind == "hr":
+                    rs[op[1]].headers = ds.Headers([(k, v) for k, v in op[2]])
+                    ret = "~"
+                elif kind == "as":
+                    vs.assign(ds, rs[op[1]], case, op[2:])
+                    ret = "~"
+                elif kind == "del":
+                    delattr(rs[op[1]], attr)
+                    ret = "~"
+                else:
+                    raise AssertionError(op)
+            except Exception as e:  # noqa: BLE001
+                ret = "!" + type(e).__name__
+                check = None
+            vals_after = [rs[0].headers.getlist(hname), rs[1].headers.getlist(hname)]
+            outs.append(ret + "#" + dump())
+            failed = ret.startswith("!")
+            if kind == "f":
+                j = op[1]
+                cause[j] = "F08c" if (fam == "set" and set_diverged(held[j])) else ""
+                note = classify(fam, rs[owner[j]], held[j], hname, pre_ct[owner[j]], cause[j], vals_after[owner[j]])
+                if not in_sync(j):
+                    problems.append((i, note, "a freshly fetched view differs from re-reading the property"))
+            elif kind == "av" and fam == "auth" and not failed:
+                j = op[1]
+                note = classify(fam, rs[owner[j]], held[j], hname, None, "", vals_after[owner[j]])
+                if not in_sync(j):
+                    problems.append((i, note, "assigned view differs from re-reading the property of the assigned-to response"))
+            elif kind == "v":
+                j = op[1]
+                o = owner[j]
+                note = classify(fam, rs[o], held[j], hname, pre_ct[o], cause[j], vals_after[o])
+                effective = content(fam, held[j]) != before[j]
+                now = in_sync(j)
+                other = 1 - o
+                if list(rs[other].headers) != hbefore[other]:
+                    problems.append((i, "", f"a mutation of a view of response {o} changed the headers of response {other}"))
+                if (synced[j] or effective) and not now and not failed:
+                    problems.append((i, note, f"re-read property of response {o} differs from its view after a view mutation"))
+                if effective and not failed:
+                    vals = rs[o].headers.getlist(hname)
+                    if view_empty(fam, held[j]):
+                        if vals:
+                            problems.append((i, note, f"view became empty but header is {vals!r}"))
+                    elif fam != "mp":
+                        try:
+                            want = held[j].to_header()
+                        except Exception:  # noqa: BLE001
+                            want = None
+                        if want is not None and vals != [want]:
+                            problems.append((i, note, f"header {vals!r} != serialisation {want!r}"))
+                if check is not None and not failed:
+                    getter, want = check
+                    try:
+                        got = getter()
+                    except Exception as e:  # noqa: BLE001
+                        got = "!" + type(e).__name__
+                    if got != want or (isinstance(want, bool) != isinstance(got, bool)):
+                        problems.append((i, "", f"read back {got!r} after assigning {want!r}"))
+            synced = [in_sync(0), in_sync(1)]
+        self._verdicts[json.dumps(case, sort_keys=True)] = problems
+        return ";".join(outs)
+
+    def model_line(self, case):
+        fam = case["fam"]
+        ops = []
+        for op in case["ops"]:
+            k = op[0]
+            if k in ("f", "av"):
+                ops.append(f"{k},{op[1]},{op[2]}")
+            elif k == "del":
+                ops.append(f"del,{op[1]}")
+            elif k == "h":
+                ops.append(f"h,{op[1]}," + hdr_line_op(op[2:]))
+            elif k == "hr":
+                ops.append(f"hr,{op[1]}," + e_pairs(op[2]))
+            elif k == "as":
+                f = op[2:]
+                if f[0] == "none":
+                    ops.append(f"as,{op[1]},none")
+                elif f[0] == "str":
+                    ops.append(f"as,{op[1]},str," + hs(f[1]))
+                else:
+                    raise AssertionError(op)
+            else:
+                ops.append(f"v,{op[1]}," + e_view_op(fam, op[2:]))
+        return "\t".join(["view2", fam, hs(case["prop"]), e_pairs(case["init"][0]), e_pairs(case["init"][1])] + ops)
+
+    def oracle(self, case, real_out):
+        key = json.dumps(case, sort_keys=True)
+        if real_out.startswith("EXC:"):
+            return f"the real code raised {real_out[4:]} outside a mutator call"
+        if key not in self._verdicts:
+            self.real(case)
+        problems = self._verdicts.get(key, [])
+        if not problems:
+            return None
+        i, note, what = problems[0]
+        return ((note + ": ") if note else "") + f"step {i}: {what}"
+
+    def finding_key(self, case, what):
+        m = re.match(r"(F(?:16|08)[a-z]): ", what)
+        return m.group(1) if m else None
+
+    def nontrivial(self, case, real_out):
+        return any(op[0] in ("v", "av") for op in case["ops"])
+
+    def bucket(self, case, real_out):
+        n = len(case["ops"])
+        return f"{case['fam']} len={n if n < 4 else '4+'}"
+
+    def mutate(self, case, rng):
+        ops = case["ops"]
+        for i in range(len(ops)):
+            yield dict(case, ops=ops[:i] + ops[i + 1 :])
+
+    def exhaustive(self, tier):
+        return True
+
+
 class ScalarStream(Stream):
     """typed scalar header properties: set / delete / direct header edit, typed read after each step"""
 
@@ -760,7 +1083,14 @@ class ScalarStream(Stream):
         "date": [["set", "dt:2024-02-29T12:34:56.789"], ["set", "dt:1999-12-31T23:59:59+02:00"], ["del"], ["h", "set", "Date", "junk"]],
         "expires": [["set", "dt:2030-01-01T00:00:00"], ["del"]],
         "last_modified": [["set", "dt:2001-09-09T01:46:40.5"], ["del"]],
+        # typed properties that are not header_property descriptors
+        "retry_after": [["set", 120], ["set", 0], ["set", "30"], ["set", "dt:2031-05-06T07:08:09.25"], ["set", "dt:1999-12-31T23:59:59+02:00"], ["set", None], ["del"], ["h", "set", "Retry-After", "17"], ["h", "set", "retry-after", "soon"], ["h", "remove", "Retry-After"]],
+        "mimetype": [["set", "text/html"], ["set", "application/json"], ["set", "image/svg+xml"], ["set", "application/xml"], ["set", "a/b"], ["del"], ["h", "set", "Content-Type", " X/Y ; q=1"], ["h", "set", "content-type", ""], ["h", "remove", "Content-Type"]],
+        "access_control_allow_credentials": [["set", True], ["set", False], ["set", None], ["set", "true"], ["del"], ["h", "set", "access-control-allow-credentials", "nope"], ["h", "remove", "Access-Control-Allow-Credentials"]],
+        "etag": [["set", ["abc", 0]], ["set", ["abc", 1]], ["set", ["", 0]], ["set", ["W/x y", 1]], ["set", ['a"b', 0]], ["del"], ["h", "set", "ETag", "W/\"q\""], ["h", "set", "etag", "unquoted"], ["h", "remove", "ETag"]],
     }
+    SPECIAL = ("retry_after", "mimetype", "access_control_allow_credentials", "etag")
+    NOW = "2024-01-02T03:04:05+00:00"
 
     def cases(self, rng, tier):
         for prop, ops in self.PROPS.items():
@@ -818,6 +1148,8 @@ class ScalarStream(Stream):
         from werkzeug.sansio.response import Response
 
         prop = case["prop"]
+        if prop in self.SPECIAL:
+            return self.real_special(case)
         r = Response()
         r.headers = ds.Headers([(k, v) for k, v in case["init"]])
         problems = []
@@ -872,12 +1204,124 @@ class ScalarStream(Stream):
         self._verdicts[json.dumps(case, sort_keys=True)] = problems
         return ";".join(outs)
 
+    def real_special(self, case):
+        """retry_after (clock pinned), mimetype, access_control_allow_credentials, set_etag/get_etag"""
+        from datetime import datetime, timedelta, timezone
+
+        import werkzeug.datastructures as ds
+        import werkzeug.sansio.response as sans
+        from werkzeug.http import http_date, parse_date
+
+        prop = case["prop"]
+        now = datetime.fromisoformat(self.NOW)
+
+        class _AnyDatetime(type):
+            def __instancecheck__(cls, obj):  # `isinstance(value, datetime)` in the setter keeps working
+                return isinstance(obj, datetime)
+
+        class FixedClock(datetime, metaclass=_AnyDatetime):
+            @classmethod
+            def now(cls, tz=None):
+                return now.astimezone(tz) if tz is not None else now.replace(tzinfo=None)
+
+        r = sans.Response()
+        r.headers = ds.Headers([(k, v) for k, v in case["init"]])
+        problems = []
+
+        def read():
+            if prop == "etag":
+                return r.get_etag()
+            return getattr(r, prop)
+
+        def dump():
+            g = read()
+            hd = "H=" + o_pairs(list(r.headers)) + "|G="
+            if prop == "retry_after":
+                raw = r.headers.get("retry-after")
+                if raw is None:
+                    return hd + "~"
+                try:
+                    int(raw)
+                except ValueError:
+                    return hd + o_s(raw)  # a date text (parsed or not): the model sees the raw text
+                return hd + "sec:" + str(int((g - now).total_seconds()))
+            if prop == "mimetype":
+                return hd + o_opt(o_s, g)
+            if prop == "access_control_allow_credentials":
+                return hd + o_bool(g)
+            return hd + ("~" if g == (None, None) else "(" + o_s(g[0]) + "," + o_bool(g[1]) + ")")
+
+        saved = sans.datetime
+        sans.datetime = FixedClock
+        try:
+            outs = ["#" + dump()]
+            for i, op in enumerate(case["ops"], 1):
+                want = "skip"
+                try:
+                    if op[0] == "h":
+                        ret = hdr_ret(hdr_apply(r.headers, op[1:], ds))
+                    elif op[0] == "del":
+                        delattr(r, prop if prop != "etag" else "get_etag")
+                        ret = "~"
+                    elif prop == "etag":
+                        r.set_etag(op[1][0], bool(op[1][1]))
+                        ret = "~"
+                        want = (op[1][0], bool(op[1][1]))
+                    else:
+                        v = self.pyval(prop, op[1])
+                        setattr(r, prop, v)
+                        ret = "~"
+                        if prop == "retry_after":
+                            if v is None:
+                                want = None
+                            elif isinstance(v, datetime):
+                                vv = v if v.tzinfo else v.replace(tzinfo=timezone.utc)
+                                want = vv.astimezone(timezone.utc).replace(microsecond=0)
+                            else:
+                                want = now + timedelta(seconds=int(v))
+                        elif prop == "mimetype":
+                            want = v
+                        else:
+                            want = v is True
+                except Exception as e:  # noqa: BLE001
+                    ret = "!" + type(e).__name__
+                    want = "skip"
+                outs.append(ret + "#" + dump())
+                if want != "skip":
+                    got = read()
+                    if got != want or type(got) is not type(want):
+                        problems.append((i, f"read back {got!r} after {op!r} (expected {want!r})"))
+                if prop == "retry_after" and op[0] == "h":
+                    # a date text set directly: the getter is parse_date of it
+                    raw = r.headers.get("retry-after")
+                    if raw is not None and not raw.lstrip("+-").isdigit() and read() != parse_date(raw):
+                        problems.append((i, f"retry_after {read()!r} != parse_date({raw!r})"))
+        finally:
+            sans.datetime = saved
+        self._verdicts[json.dumps(case, sort_keys=True)] = problems
+        return ";".join(outs)
+
     def model_line(self, case):
         from werkzeug.http import http_date
 
         prop = case["prop"]
         ops = []
         for op in case["ops"]:
+            if prop in self.SPECIAL and op[0] == "set":
+                v = op[1]
+                if prop == "etag":
+                    ops.append(f"set,e{int(v[1])}" + hs(v[0]))
+                elif v is None:
+                    ops.append("set,~")
+                elif v is True or v is False:
+                    ops.append("set," + ("t" if v else "f"))
+                elif isinstance(v, int):
+                    ops.append(f"set,i{v}")
+                elif isinstance(v, str) and v.startswith("dt:"):
+                    ops.append("set,s" + hs(http_date(self.pyval(prop, v))))
+                else:
+                    ops.append("set,s" + hs(v))
+                continue
             if op[0] == "h":
                 ops.append("h," + hdr_line_op(op[1:]))
             elif op[0] == "del":
@@ -922,12 +1366,16 @@ PROPNAME = {"date": "Date", "expires": "Expires", "last_modified": "Last-Modifie
 
 CHECK = Check(
     prop="C16",
-    gen=["Containers", "Views"],
-    modules=["WzVerif.Props.C16"],
-    streams=[ViewsStream(), ScalarStream()],
+    gen=["Containers", "Views", "ResponseProps", "PyFns_Headers", "PyFns_HeaderSet", "Http", "PyFns_Http", "PyFns_Internal", "PyFns_HttpDict"],
+    modules=["WzVerif.Props.C16", "WzVerif.Props.C08T", "WzVerif.Props.C16T"],
+    streams=[ViewsStream(), SharedViewsStream(), ScalarStream()],
     assumptions=[
         "the header codecs used by the views are the C06 models (Model/Http.lean: parse_list_header/urllib parse_http_list, parse_set_header, parse_dict_header, dump_header, parse_csp_header, parse_content_range_header, WWWAuthenticate.from_header/to_header, parse_options_header, dump_options_header), validated here by stream views and in C06 by its own streams; the view_coherent_* theorems use the C06 round-trip theorems, their only side conditions are explicit domain predicates on the written views (setGood, dictGood, cspGood, crGood, authGood, mpGood) and HeaderSet.Inv / non-colliding item assignment for the set views; WWW-Authenticate Digest challenges (always-quoted parameters) are outside authGood: no round-trip theorem exists for them yet",
-        "dates (http_date / parse_date) are opaque: the harness computes the text with the same library call; the model covers the Headers mechanics of the date properties",
+        "ContentRange.set / unset / to_header / __bool__ are regenerated from the source by tools/py2lean.py (Gen/PyFns_HttpDict.lean) on every run and proved equal to the view model's steps CR.step / CR.toHeader for all inputs (Props/C16T); the object's attributes and the flag 'on_update was called' are threaded explicitly",
+        "dates: typed_get_set_date is proved on C06's date model (http_date / parse_date of every second from year 100 to 9999); in the scalars stream the harness still computes the date text with the library call and the model covers the Headers mechanics; retry_after's clock (datetime.now) is pinned by the harness and int(value) is CC.pyInt (optional sign + ASCII digits); generate_etag / sha1 do not occur (set_etag takes the tag)",
+        "view objects shared between responses and several live view objects of one response: Lemmas/ViewsShared (coherent2) over any number of responses and held objects; the www_authenticate setter re-binds the object's on_update to the assigned-to response (AST fact www_authenticate_rebinds_in_source), the other setters store text only; tied to the code by stream views-shared (two responses, two held objects)",
+        "coverage: every descriptor of sansio.Response and every method using self.headers is listed by generator ResponseProps (live class + AST) and mapped to its theorem or excluded with a reason (response_attrs_covered, decide)",
+        "known-finding keys are attached by harness.c16.classify only when the held view has the cause the finding names and the header carries exactly the (lossy) serialisation of that view, observed right after the step before anything re-read the property",
         "str.lower / title / strip follow Util.Py (ASCII letter case; Unicode white space table)",
         "known finding F16b: WWW-Authenticate view with neither token nor parameters is written back as 'Basic ' (header present for an empty view; re-read has token '')",
     ],
@@ -937,7 +1385,7 @@ CHECK = Check(
 )
 
 MANIFEST = {
-    "level_text": "Machine-checked Lean 4 theorems: for every history of view mutations, re-fetches, whole-property assignments and direct header edits, the notification discipline of each view family (HeaderSet views under HeaderSet.Inv, cache-control / CSP / mimetype_params callback dicts, ContentRange, WWWAuthenticate as repaired) keeps the held view in sync with the header, and after an effective mutation the header text is the view's serialisation or absent when the view is empty; typed get/set for the scalar properties. The transcribed views are tied to the code by an exhaustive short-history correspondence stream and the two-part property oracle runs on the real objects.",
+    "level_text": "Machine-checked Lean 4 theorems: for every history of view mutations, re-fetches, whole-property assignments and direct header edits, the notification discipline of each view family (HeaderSet views under HeaderSet.Inv, cache-control / CSP / mimetype_params callback dicts, ContentRange, WWWAuthenticate as repaired) keeps the held view in sync with the header, and after an effective mutation the header text is the view's serialisation or absent when the view is empty; the same for view objects shared between several responses and several live objects of one response (the www_authenticate setter re-targets the callback, proved and pinned in the source by an AST obligation); typed get/set for every scalar property (str, int, age, dates on the C06 date model, set-valued access-control headers, COOP/COEP enums, mimetype, retry_after, access_control_allow_credentials, set_etag/get_etag) with a decide obligation that every header-backed attribute of sansio.Response is covered or excluded. The transcribed views are tied to the code by an exhaustive short-history correspondence stream and the two-part property oracle runs on the real objects.",
     "level_note": "Trusted: Lean kernel; extract.py; harness; codec round trips are the C06 theorems (domain predicates on the written views are the only side conditions; Digest challenges not covered); dates opaque. Known findings F16b, F16c, F16d, F16f, F08b/F08c through views.",
     "technique": "Lean 4 proof (invariant over operation histories, generic in the view family) + model/code correspondence",
     "design_ref": "DESIGN.md section 4, C16",
